@@ -3,18 +3,19 @@
 import json, glob, os
 V = os.path.dirname(os.path.dirname(os.path.abspath(__file__)))
 rows = []
+notes = json.load(open(os.path.join(V, 'seeded', 'first_round_notes.json'))) if os.path.exists(os.path.join(V, 'seeded', 'first_round_notes.json')) else {}
 for f in sorted(glob.glob(os.path.join(V, 'seeded', '*', 'meta.json'))):
     m = json.load(open(f))
     needs = ' '.join(m.get('needs', '').split())[:160]
     rows.append(f"| {m['id']} | {m['property']} | {m.get('suite_with_patch')} | {', '.join(m.get('caught_with_failing_input', [])) or '-'} | "
-                f"{', '.join(c for c in m.get('caught_by', []) if c not in m.get('caught_with_failing_input', [])) or '-'} | {needs} |")
+                f"{', '.join(c for c in m.get('caught_by', []) if c not in m.get('caught_with_failing_input', [])) or '-'} | {needs} | {notes.get(m['id'], 'caught as built')} |")
 out = ["# Seeded changes", "",
        "Each directory holds a change to thermal-recorder written by an independent sub-agent that was given only the text of one property",
        "and a scratch worktree (nothing from /verif): `patch.diff`, the agent's demonstration (fails with the patch, passes without), `notes.txt`,",
        "`meta.json` (what was run) and the replay files the checks produced.  Confirmed with `tools/seedtest.py`: the patch applies to /repo, the",
        "pinned test suite still passes with it, the demonstration fails with / passes without it, then the listed checks were run on /repo with the",
        "patch applied and /repo was restored.", "",
-       "| seed | property | suite with patch | caught with a failing input (VIOLATION + replay) | also flagged (no-failing-input-found) | what it needs to manifest |",
-       "|---|---|---|---|---|---|"] + rows
+       "| seed | property | suite with patch | caught with a failing input (VIOLATION + replay) | also flagged (no-failing-input-found) | what it needs to manifest | first-round result / what was strengthened |",
+       "|---|---|---|---|---|---|---|"] + rows
 open(os.path.join(V, 'seeded', 'README.md'), 'w').write('\n'.join(out) + '\n')
 print(len(rows), 'seeds')
